@@ -212,7 +212,10 @@ def main():
     cases = uniq
     results = common.pmap(run_one, cases, chunksize=4)
     slow = []
-    for c, r in zip(cases, results):
+    # no answer within the first limit: run those again, together, with a limit five times as long, before calling anything a hang
+    hung = [i for i, r in enumerate(results) if r.get('san') and r['san'][0] == 'hang']
+    again = dict(zip(hung, common.pmap(run_one, [dict(cases[i], timeout=300 if cases[i].get('timeout', 60) <= 60 else 600) for i in hung], chunksize=1))) if hung else {}
+    for ci, (c, r) in enumerate(zip(cases, results)):
         chk.count(states=1, transitions=1)
         chk.cls(c['cls'].split(':')[0] + '/' + c['tool'])
         small = dict((k, v) for k, v in c.items() if k != 'text' or (v is not None and len(v) < 20000))
@@ -220,7 +223,7 @@ def main():
             small['text'] = small['text'].decode('latin1')
         if r.get('san'):
             if r['san'][0] == 'hang':
-                r2 = run_one(dict(c, timeout=600))
+                r2 = again[ci]
                 if not r2.get('san'):
                     chk.outcome('slow')
                     slow.append((c['tool'], c['cls'], c['detail'], round(r2['t'], 1)))
